@@ -1,17 +1,21 @@
 package props
 
 import (
+	"context"
 	"encoding/base64"
 	"fmt"
 	"net/http"
 	"sort"
 	"strings"
 
+	"google.golang.org/grpc"
 	"google.golang.org/grpc/codes"
 	"google.golang.org/grpc/metadata"
 	"google.golang.org/grpc/status"
 	"google.golang.org/protobuf/encoding/protojson"
 	"google.golang.org/protobuf/proto"
+
+	"larking.io/larking"
 
 	"verif/explore"
 	"verif/ref/wire"
@@ -35,12 +39,27 @@ type c14Case struct {
 	Items   []string `json:"items,omitempty"`
 	ViaSend bool     `json:"via_send_header,omitempty"`
 	Bin     []byte   `json:"bin_value,omitempty"` // value of the -bin items (default c14BinVal)
+	Opts    bool     `json:"mux_with_interceptors_and_stats,omitempty"`
 }
 
 type c14Env struct {
 	t    *tSchema
 	mux  http.Handler
 	impl *tImpl
+	// the same service on a mux with pass-through interceptors and a stats handler installed
+	muxOpts  http.Handler
+	implOpts *tImpl
+	plainMux http.Handler
+	plainImp *tImpl
+}
+
+// use selects the mux a case runs on.
+func (e *c14Env) use(withOpts bool) {
+	if withOpts {
+		e.mux, e.impl = e.muxOpts, e.implOpts
+	} else {
+		e.mux, e.impl = e.plainMux, e.plainImp
+	}
 }
 
 func newC14Env() *c14Env {
@@ -52,7 +71,18 @@ func newC14Env() *c14Env {
 	if err != nil {
 		panic(err)
 	}
-	return &c14Env{t: t, mux: m, impl: impl}
+	mo, implo, err := t.newMux(
+		larking.UnaryServerInterceptorOption(func(ctx context.Context, req interface{}, info *grpc.UnaryServerInfo, handler grpc.UnaryHandler) (interface{}, error) {
+			return handler(ctx, req)
+		}),
+		larking.StreamServerInterceptorOption(func(srv interface{}, ss grpc.ServerStream, info *grpc.StreamServerInfo, handler grpc.StreamHandler) error {
+			return handler(srv, ss)
+		}),
+		larking.StatsOption(&statsProbe{}))
+	if err != nil {
+		panic(err)
+	}
+	return &c14Env{t: t, mux: m, impl: impl, plainMux: m, plainImp: impl, muxOpts: mo, implOpts: implo}
 }
 
 func (e *c14Env) call(tc *c14Case, hdr http.Header) *callResult {
@@ -444,6 +474,7 @@ func c14OutCases(thorough bool) []c14Case {
 }
 
 func (e *c14Env) exec(tc *c14Case) (string, string) {
+	e.use(tc.Opts)
 	if tc.Kind == "in" {
 		return e.execIn(tc)
 	}
@@ -452,9 +483,16 @@ func (e *c14Env) exec(tc *c14Case) (string, string) {
 
 func runC14(c *Ctx) {
 	r := c.Run
-	r.Rule("incoming: protocol{gRPC, gRPC-web, gRPC-web-text, HTTP} × header name{x-a, X-A, X-Mixed-Case} × 1..3 values; '-bin' names × every byte string of length <= 3 over {00,41,fb,ff} in padded and unpadded base64, alone and mixed; outgoing: protocol (plus gRPC and gRPC-web with gzip negotiated) × shape{unary, server-streaming} × outcome{ok, PermissionDenied} × SetHeader vs SendHeader × every subset of {two-valued header, -bin header, same key in header and trailer, two-valued trailer, -bin trailer, trailer set after the first reply} plus each reserved key (content-type, grpc-status, grpc-message, grpc-encoding, grpc-status-details-bin, trailer) as header and as trailer, alone, with all custom items, and all at once; distinct = (kind, protocol, shape, outcome, item set); thorough: incoming -bin values of length <= 4 over {00,41,fb,ff,3e,3f}, more header names, and every byte string of length <= 3 as outgoing -bin header and trailer value")
+	r.Rule("incoming: protocol{gRPC, gRPC-web, gRPC-web-text, HTTP} × header name{x-a, X-A, X-Mixed-Case} × 1..3 values; '-bin' names × every byte string of length <= 3 over {00,41,fb,ff} in padded and unpadded base64, alone and mixed; outgoing: protocol (plus gRPC and gRPC-web with gzip negotiated) × shape{unary, server-streaming} × outcome{ok, PermissionDenied} × SetHeader vs SendHeader × every subset of {two-valued header, -bin header, same key in header and trailer, two-valued trailer, -bin trailer, trailer set after the first reply} plus each reserved key (content-type, grpc-status, grpc-message, grpc-encoding, grpc-status-details-bin, trailer) as header and as trailer, alone, with all custom items, and all at once; every case on a plain mux and on a mux with pass-through interceptors and a stats handler; distinct = (kind, protocol, shape, outcome, item set, mux options); thorough: incoming -bin values of length <= 4 over {00,41,fb,ff,3e,3f}, more header names, and every byte string of length <= 3 as outgoing -bin header and trailer value")
 	r.Assume("http.Header canonicalises names as net/http does when parsing the wire", "trailers are demanded on gRPC and gRPC-web only")
 	cases := append(c14InCases(c.Thorough()), c14OutCases(c.Thorough())...)
+	// everything again on a mux with pass-through interceptors and a stats handler: options
+	// must not add, drop or duplicate metadata
+	for i, n := 0, len(cases); i < n; i++ {
+		tc := cases[i]
+		tc.Opts = true
+		cases = append(cases, tc)
+	}
 	envs := make([]*c14Env, explore.Workers)
 	explore.ParallelFor(len(cases), func() bool { return r.TooManyViolations() }, func(w, i int) {
 		if envs[w] == nil {
@@ -465,11 +503,11 @@ func runC14(c *Ctx) {
 		r.Eval(1)
 		if oracle != "" {
 			r.Outcome("FAIL:" + oracle)
-			r.Violation(report.Violation{Oracle: oracle, Key: fmt.Sprintf("%s kind=%s proto=%s shape=%s fail=%v via_send=%v headers=%v items=%v", oracle, tc.Kind, tc.Proto, tc.Shape, tc.Fail, tc.ViaSend, tc.Headers, tc.Items), Case: *tc, Note: note})
+			r.Violation(report.Violation{Oracle: oracle, Key: fmt.Sprintf("%s kind=%s proto=%s shape=%s fail=%v via_send=%v headers=%v items=%v opts=%v", oracle, tc.Kind, tc.Proto, tc.Shape, tc.Fail, tc.ViaSend, tc.Headers, tc.Items, tc.Opts), Case: *tc, Note: note})
 			return
 		}
 		r.Outcome(tc.Kind + "-ok:" + tc.Proto)
-		r.Distinct(fmt.Sprintf("%s|%s|%s|%v|%v|%v", tc.Kind, tc.Proto, tc.Shape, tc.Fail, tc.Items, len(tc.Headers)))
+		r.Distinct(fmt.Sprintf("%s|%s|%s|%v|%v|%v|%v", tc.Kind, tc.Proto, tc.Shape, tc.Fail, tc.Items, len(tc.Headers), tc.Opts))
 		if r.WantSample() && i%701 == 5 {
 			r.Sample(*tc)
 		}
